@@ -503,18 +503,26 @@ def channel_cases(rng):
     yield ["net g g", "store_record 1", "hold", f"burst {a} get_record 1 one", f"burst {b} find_node 2",
            f"release burst {cap - 2 * a - b + rng.choice([0, 1, 2, 77])} get_record 2 all", "find_node 1", "hold",
            "find_node 2", "release", "settle"]
-    # the channel exactly full (or one short) when a single event of each remaining kind is due
-    fill = lambda: f"burst {cap // 2 - rng.choice([0, 0, 1])} get_record 1 one"
-    yield ["net g g g", "add_known_peer 1", "established 1", "find_node 5", "subopen #0", "store_record 1", "hold", fill(),
-           f"release reply #0 nodes={rng.choice(['2,3', '2', '-'])}", "settle"]
-    yield ["net g g g", "add_known_peer 1", "established 1", "get_record 8 all", "subopen #0", "store_record 1", "hold", fill(),
-           "release reply #0 nodes=2 value", "settle"]
-    yield ["net g g", "established 1", "store_record 1", "hold", fill(), f"release inbound 1 put_value {rng.randrange(2, 9)}",
-           "settle"]
-    yield ["net g g", "established 1", "store_record 1", "hold", fill(), "find_node 3",
-           f"release inbound 1 add_provider {rng.randrange(2, 9)}", "settle"]
-    yield ["net g g", "add_known_peer 1", "established 1", "store_record 1", "put_record_to 3 1 one", "subopen #0", "hold", fill(),
-           "release reply #0", "settle"]
+    # the channel exactly full / one short when the event(s) of one handler are due: a handler's first send suspends
+    # (full) or just fits and its second send finds the channel full (one short)
+    fills = {"full": [f"burst {cap // 2} get_record 1 one"],
+             "short": [f"burst {cap // 2 - 1} get_record 1 one", "inbound 1 put_value 9"]}
+    for name in ("full", "short"):
+        fill = fills[name]
+        yield ["net g g g", "add_known_peer 1", "established 1", "find_node 5", "subopen #0", "store_record 1", "hold"] + fill + \
+              ["release reply #0 nodes=-", "settle"]                        # RoutingTableUpdate, FindNodeSuccess
+        yield ["net g g", "established 1", "store_record 1", "hold"] + fill + \
+              [f"release inbound 1 put_value {rng.randrange(2, 9)}", "settle"]   # IncomingRecord
+    which = rng.choice(["full", "short"])
+    yield ["net g g g", "add_known_peer 1", "established 1", "find_node 5", "subopen #0", "store_record 1", "hold"] + fills[which] + \
+          [f"release reply #0 nodes={rng.choice(['2,3', '2'])}", "settle"]
+    yield ["net g g g", "add_known_peer 1", "established 1", "get_record 8 all", "subopen #0", "store_record 1", "hold"] + \
+          fills[rng.choice(["full", "short"])] + ["release reply #0 nodes=- value", "settle"]   # partial result, success
+    yield ["net g g", "established 1", "store_record 1", "hold"] + fills[rng.choice(["full", "short"])] + \
+          [f"release inbound 1 add_provider {rng.randrange(2, 9)}", "settle"]                 # IncomingProvider
+    yield ["net g g", "add_known_peer 1", "established 1", "store_record 1", "put_record_to 3 1 one", "subopen #0", "hold"] + \
+          fills[rng.choice(["full", "short"])] + ["release reply #0", "settle"]                 # PutRecordSuccess
+    yield ["net g g", "store_record 1", "hold", fills["short"][0], "find_node 7", "release get_record 1 one", "settle"]  # partial + success (command arm)
     # more inbound records than the channel holds
     yield ["net g g", "established 1", f"burst {over()} inbound 1 put_value 3", "settle"]
     yield ["net g g", "burst 0 find_node 1", "burst 7000 find_node 1", "burst 3 frob", "release", "hold", "hold", "burst 3",
